@@ -27,6 +27,18 @@ impl Drop for Elem {
             tlog!("dropc {}", self.val);
         } else {
             tlog!("drop {}", self.val);
+            if self.val == rt::DROPWAIT_VAL.load(Ordering::Relaxed) && rt::tid() != NO_TID && !rt::silent() && rt::logging() {
+                // a destructor that blocks until another thread's program is over
+                let t = rt::DROPWAIT_TID.load(Ordering::Relaxed);
+                let mut rounds = 0;
+                while !rt::thread_finished(t) && rounds < 400 {
+                    probe_point();
+                    rounds += 1;
+                }
+                if !rt::thread_finished(t) {
+                    tlog!("dropwait-starved {} waited for T{}", self.val, t);
+                }
+            }
             // destructor fault injection: the k-th recorded destruction panics (never while already unwinding:
             // a second panic would abort the process)
             if rt::logging() {
